@@ -364,6 +364,57 @@ class PatGen:
             return fm.MOR(v + '_no', v)
         return v
 
+    def unify(self, a, b, depth=0):
+        """Anti-unification of two pure ASTs: a pattern that accepts both, is exact where they agree, and where they differ
+        is an alternation whose first branch captures a tag (so the tags depend on which target is matched).  At every
+        unified node the first agreeing field is wrapped in M(sub, sK=True) - static tags only, no pattern tag."""
+        fm, rng = self.fm, self.rng
+        self.kinds.add('unify')
+        if isinstance(a, ast.AST) and isinstance(b, ast.AST) and type(a) is type(b) and self.mcls(a) is not None \
+                and not isinstance(a, (ast.JoinedStr, ast.FormattedValue, ast.expr_context)) and ast.dump(a) != ast.dump(b):
+            kw = {}
+            static_done = False
+            for f in a._fields:
+                if f in ('ctx', 'type_comment', 'kind'):
+                    continue
+                va, vb = getattr(a, f, None), getattr(b, f, None)
+                same = (ast.dump(va) == ast.dump(vb)) if isinstance(va, ast.AST) and isinstance(vb, ast.AST) else \
+                    (isinstance(va, list) and isinstance(vb, list) and len(va) == len(vb)
+                     and all(isinstance(x, ast.AST) and isinstance(y, ast.AST) and ast.dump(x) == ast.dump(y) for x, y in zip(va, vb))) \
+                    if isinstance(va, (ast.AST, list)) or isinstance(vb, (ast.AST, list)) else (type(va) is type(vb) and va == vb)
+                if same:
+                    sub = self._plain(va)
+                    if not static_done and not (f == 'names' and isinstance(a, (ast.Global, ast.Nonlocal))):
+                        static_done = True
+                        sub = fm.M(sub, **{'s' + self.tag(): rng.choice([True, 1, 'st'])})
+                    kw[f] = sub
+                elif isinstance(va, list) and isinstance(vb, list) and len(va) == len(vb) and va \
+                        and all(isinstance(x, ast.AST) for x in va + vb):
+                    kw[f] = [self.unify(x, y, depth + 1) for x, y in zip(va, vb)]
+                else:
+                    kw[f] = self.unify(va, vb, depth + 1)
+            return self.mcls(a)(**kw)
+        if (isinstance(a, ast.AST) and isinstance(b, ast.AST) and ast.dump(a) == ast.dump(b)) or \
+                (not isinstance(a, (ast.AST, list)) and not isinstance(b, (ast.AST, list)) and type(a) is type(b) and a == b):
+            return self._plain(a)
+        pa, pb = self._plain(a), self._plain(b)
+        if rng.random() < 0.5:
+            return fm.MOR(fm.M(**{self.tag(): pa}), pb)
+        return fm.MOR(**{self.tag(): pa}, **{'z' + self.tag(): fm.M(pb)}) if rng.random() < 0.3 else fm.MOR(pb, fm.M(**{self.tag(): pa}))
+
+    def _plain(self, v):
+        """exact pattern without any tag or callback (plain MAST structure)"""
+        if isinstance(v, ast.AST):
+            cls = self.mcls(v)
+            if cls is None or isinstance(v, (ast.JoinedStr, ast.FormattedValue)):
+                return v
+            if isinstance(v, ast.expr_context):
+                return ...
+            return cls(**{f: self._plain(getattr(v, f, None)) for f in v._fields if f not in ('ctx', 'type_comment', 'kind')})
+        if isinstance(v, list):
+            return [self._plain(x) for x in v]
+        return v
+
     def top(self, v, kind):
         """a pattern with the requested combinator at top level (for search's pre-filter)"""
         fm, rng = self.fm, self.rng
@@ -549,7 +600,7 @@ def run_search(prog, pat, form, path, nested, on, back, self_, recurse, scope):
     return ev
 
 
-def record_program(pi, src, seed, n_targets, n_search, quick=True):
+def record_program(pi, src, seed, n_targets, n_search, quick=True, n_pairs=3):
     """Returns (trace dict, stats dict).  The trace's steps are self-contained observations."""
     rng = random.Random(seed * 1000003 + pi)
     prog = Program(src, seed)
@@ -614,6 +665,32 @@ def record_program(pi, src, seed, n_targets, n_search, quick=True):
             stats['kinds'].add('backref-hit')
             for form in forms:
                 plan.append((k, path, form, 'none'))
+    # anti-unified patterns of two different nodes of one class: both are accepted, with different tags; the SAME pattern
+    # object is matched on both, on every form, and every one of these calls is repeated later (history)
+    forced = []
+    byc = {}
+    for i in cand:
+        n = prog.nodes[i][1]
+        if sum(1 for f in n._fields if isinstance(getattr(n, f, None), (ast.AST, list))) >= 2:
+            byc.setdefault(type(n).__name__, []).append(i)
+    pools = [v for v in byc.values() if len(v) >= 2]
+    rng.shuffle(pools)
+    for pool in pools[:n_pairs]:
+        ia, ib = rng.sample(pool, 2)
+        (pa, na, _), (pb, nb, _) = prog.nodes[ia], prog.nodes[ib]
+        if ast.dump(na) == ast.dump(nb) or in_fstring(prog.nodes, ia) or in_fstring(prog.nodes, ib):
+            continue
+        g = PatGen(rng, others)
+        try:
+            p = g.unify(by_path(ast.parse(src), pa), by_path(ast.parse(src), pb))
+        except Exception:  # noqa: BLE001
+            continue
+        stats['kinds'] |= g.kinds
+        k = add_pat(p, False, 'unify:' + type(na).__name__)
+        for form in forms:
+            for path in (pa, pb):
+                plan.append((k, path, form, 'none'))
+                forced.append((k, path, form, 'none'))
     # patterns with every combinator at top level, used for match and search
     tops = []
     topkind = {}
@@ -633,7 +710,7 @@ def record_program(pi, src, seed, n_targets, n_search, quick=True):
             plan.append((k, path, form, 'none'))
     rng.shuffle(plan)
     # history: repeat a sample of the calls later, after other calls
-    repeats = rng.sample(plan, max(1, len(plan) // 4))
+    repeats = rng.sample(plan, max(1, len(plan) // 4)) + forced
     searches = []
     fst_forms = [f for f in forms if f != 'ast']
     for _ in range(n_search):
